@@ -118,16 +118,16 @@ Fixpoint indexed {A} (i : N) (l : list A) : list (N * A) :=
   end.
 
 (** the label under which the leaves below a fragment are listed: the lower-cased name of the Go
-    field that holds the fragment, without the underscores the generator may have appended to make
-    the field name unique (= the lower-cased type condition / fragment name, without trailing
-    underscores) *)
+    field that holds the fragment, without leading and trailing underscores (the generator moves a
+    leading "__" of the name to the end, and may append underscores to make the field name unique)
+    = the lower-cased type condition / fragment name, without leading and trailing underscores *)
 Fixpoint strip_us_rev (r : bytes) : bytes :=
   match r with
   | c :: r' => if (c =? 95)%N then strip_us_rev r' else r
   | [] => []
   end.
 Definition strip_us (l : bytes) : bytes := rev (strip_us_rev (rev l)).
-Definition frag_label (n : bytes) : bytes := strip_us (lower_bytes n).
+Definition frag_label (n : bytes) : bytes := strip_us_rev (strip_us (lower_bytes n)).
 
 (** the (path, leaf) pairs of a decoded value, as the decode program's reflection walk lists them *)
 Fixpoint leaves (v : goval) : list (path * leaf) :=
